@@ -85,6 +85,7 @@ type world struct {
 	insts       []api.Module
 	fns         [][2]api.Function
 	startScript uint64
+	compiled    map[string]wazero.CompiledModule
 	trace       []string // host function calls: "<fn>:<name of the module the host function was given>"
 }
 
@@ -183,7 +184,7 @@ func guestBin(peer string, start int) []byte {
 }
 
 func newWorld(ctx context.Context, engine string, ninst int, closeOnDone bool) (*world, error) {
-	w := &world{ctx: ctx}
+	w := &world{ctx: ctx, compiled: map[string]wazero.CompiledModule{}}
 	w.rt = wazero.NewRuntimeWithConfig(ctx, wz.Config(engine).WithCloseOnContextDone(closeOnDone).
 		WithCompilationCache(cacheFor(fmt.Sprintf("%s/%v", engine, closeOnDone))))
 	if _, err := wasi_snapshot_preview1.Instantiate(ctx, w.rt); err != nil {
@@ -219,9 +220,17 @@ func (w *world) instantiate(peer string, start int, name string) (api.Module, er
 }
 
 func (w *world) instantiateCtx(ctx context.Context, peer string, start int, name string) (api.Module, error) {
-	cm, err := w.rt.CompileModule(w.ctx, guestBin(peer, start))
-	if err != nil {
-		return nil, fmt.Errorf("harness: compile: %w", err)
+	// one CompiledModule per guest variant for the whole history: whatever happened to earlier
+	// instantiations of it (a start function that trapped, panicked or exited, a link error), the
+	// caller's CompiledModule must still instantiate
+	key := fmt.Sprintf("%s/%d", peer, start)
+	cm := w.compiled[key]
+	if cm == nil {
+		var err error
+		if cm, err = w.rt.CompileModule(w.ctx, guestBin(peer, start)); err != nil {
+			return nil, fmt.Errorf("harness: compile: %w", err)
+		}
+		w.compiled[key] = cm
 	}
 	return w.rt.InstantiateModule(ctx, cm, wazero.NewModuleConfig().WithName(name))
 }
